@@ -32,9 +32,10 @@ def check(run):
             if r[0] != 'table':
                 if r[0] == 'undecided':
                     run.undecided('R12', f, r[2], r[1])
+                elif r[0] == 'raise':
+                    run.violation('R12', f, 'qubits=%r' % (env['qubits'],), 'a valid single-qubit call raises instead of building the gate')
                 else:
-                    run.violation('R12', f, 'qubits=%r' % (env['qubits'],),
-                                  'no literal forward map is installed for a single qubit (%s)' % r[0])
+                    run.undecided('R12', f, 'qubits=%r' % (env['qubits'],), 'no literal CliffordMap assignment recognised on this path (%s)' % r[0])
                 continue
             t = tup(r[1])
             ok, why = oracle.map_is_valid(t)
@@ -61,8 +62,10 @@ def check(run):
             run.check(ok, 'R12.valid', f, r[2], 'C(%d) is not a valid Clifford map: %s' % (k, why))
         elif r[0] == 'undecided':
             run.undecided('R12', f, r[2], r[1])
+        elif r[0] == 'raise':
+            run.violation('R12.index', f, 'num == %d' % k, 'the valid index %d is rejected (no table is installed for it)' % k)
         else:
-            run.violation('R12.index', f, 'num == %d' % k, 'index %d installs no single literal table (%s)' % (k, r[0]))
+            run.undecided('R12.index', f, 'num == %d' % k, 'no single literal table recognised for index %d (%s)' % (k, r[0]))
     group = {tup(((a, b), p)) for ((a, b), p) in oracle.all_1q_cliffords()}
     seen = {}
     for k, (t, st) in sorted(got.items()):
@@ -108,8 +111,10 @@ def check(run):
         if r[0] != 'table':
             if r[0] == 'undecided':
                 run.undecided('R12', f, r[2], r[1])
+            elif r[0] == 'raise':
+                run.violation('R12', f, 'CNOT%r' % (q,), 'a valid two-qubit call raises instead of building the gate')
             else:
-                run.violation('R12', f, 'CNOT%r' % (q,), 'no single literal table for qubits %r (%s)' % (q, r[0]))
+                run.undecided('R12', f, 'CNOT%r' % (q,), 'no single literal table recognised for qubits %r (%s)' % (q, r[0]))
             continue
         t = tup(r[1])
         control, target = (0, 1) if q[0] < q[1] else (1, 0)
